@@ -244,6 +244,24 @@ func genEqPair(t *rapid.T, optSets []string, withPrecision bool) PairCase {
 		opts = fmt.Sprintf("prec:%v", eps)
 		p := gen.Profile{Floats: true, VoidRoot: true}
 		a := gen.Doc(t, p)
+		if gen.Chance(t, "longNumbers", 8) {
+			// a long list of numbers, a few of them moved by less than eps
+			n := gen.Int(t, "nNumbers", 60, 150)
+			l := make([]val.V, n)
+			for i := range l {
+				l[i] = float64(i%7) + 0.25
+			}
+			l2 := val.Clone(l).([]val.V)
+			for k := gen.Int(t, "nMoved", 1, 3); k > 0; k-- {
+				i := gen.Int(t, "movedAt", 0, n-1)
+				l2[i] = l2[i].(float64) + eps*gen.Pick(t, "factor", []float64{0.5, 0.25, -0.5, 0.999, 1.5, 2})
+			}
+			var av, bv val.V = l, l2
+			if gen.Chance(t, "nested", 40) {
+				av, bv = map[string]val.V{"k": []val.V{"x", l}}, map[string]val.V{"k": []val.V{"x", l2}}
+			}
+			return PairCase{A: val.JSON(av), B: val.JSON(bv), Opts: opts}
+		}
 		var b val.V
 		switch gen.Int(t, "precMode", 0, 3) {
 		case 0:
